@@ -6,7 +6,7 @@ open PdshVerif.Dsh.Fan (Variant DPC)
 
 /-- the signals thread is in the report-only branch of `_handle_sigint` -/
 def SPC.reports : SPC → Bool
-  | .intT | .intT2 | .listLock | .listing _ => true
+  | .intT | .intT2 | .listLock | .listing _ | .printing _ => true
   | _ => false
 
 theorem d_step_spc {s s' : St} {a : DAct} (hd : dStep s a = some s') :
@@ -46,6 +46,8 @@ theorem reports_step {s s' : St} {l : Label} (hs : step s l = some s')
         · intro _; apply hq; rw [hw]; rfl
         · intro _; apply hq; rw [hw]; rfl
         · intro _; apply hq; rw [hw]; rfl
+        · intro _; apply hq; rw [hw]; rfl
+        · intro hc; cases hc
         · intro hc; dsimp only at hc; split at hc <;> cases hc
       · simp at hd
     | lockT =>
@@ -61,6 +63,9 @@ theorem reports_step {s s' : St} {l : Label} (hs : step s l = some s')
       simp only [sStep] at hd
       split at hd
       · simp only [Option.some.injEq] at hd; subst hd; intro hc; cases hc
+      · simp only [Option.some.injEq] at hd; subst hd
+        rename_i k hw
+        intro _; apply hq; rw [hw]; rfl
       · split at hd <;> simp at hd; subst hd; intro hc; cases hc
       · simp at hd
     | lock =>
